@@ -95,3 +95,52 @@ def repaired(rng, dgm):
         if not np.array_equal(ds2, ds):
             return np.column_stack([bs, ds2])[rng.permutation(n)]
     return D.copy()
+
+
+def specialize(rng, dgm, scale=1.0):
+    """plant values that code tends to special-case: 0, -0.0, exactly representable halves / powers of two, a birth equal to another
+    point's death, an exact duplicate, a point on the diagonal; keeps death >= birth"""
+    D = np.array(dgm, float).reshape(-1, 2).copy()
+    n = len(D)
+    if n == 0:
+        return D
+    for _ in range(int(rng.integers(1, 4))):
+        i = int(rng.integers(0, n)); what = int(rng.integers(0, 8))
+        if what == 0:
+            D[i, 0] = 0.0
+        elif what == 1:
+            D[i, 0] = -0.0
+        elif what == 2:
+            D[i] = [0.0, 0.0]
+        elif what == 3 and n > 1:
+            j = int(rng.integers(0, n)); D[i, 0] = D[j, 1]                   # touching: birth == someone's death
+        elif what == 4 and n > 1:
+            D[i] = D[int(rng.integers(0, n))]                                 # exact duplicate
+        elif what == 5:
+            D[i, 1] = D[i, 0]                                                 # on the diagonal
+        elif what == 6:
+            D[i] = np.array([1.0, 2.0]) * scale * float(2.0 ** rng.integers(-3, 4))
+        else:
+            D[i, 1] = D[i, 0] + scale * float(rng.choice([0.5, 1.0, 2.0 ** -20, 2.0 ** 10]))
+    D[:, 1] = np.maximum(D[:, 1], D[:, 0])
+    return D
+
+
+def entangle(rng, A, B):
+    """make two diagrams share structure: exact common points, B-births equal to A-deaths, equal persistence across the pair"""
+    A = np.array(A, float).reshape(-1, 2); B = np.array(B, float).reshape(-1, 2).copy()
+    if len(A) == 0 or len(B) == 0:
+        return B
+    for _ in range(int(rng.integers(1, 4))):
+        i, j = int(rng.integers(0, len(A))), int(rng.integers(0, len(B)))
+        what = int(rng.integers(0, 4))
+        if what == 0:
+            B[j] = A[i]                                                       # shared point
+        elif what == 1:
+            B[j, 0] = A[i, 1]; B[j, 1] = max(B[j, 1], B[j, 0])                # B born when an A point dies
+        elif what == 2:
+            B[j, 1] = B[j, 0] + (A[i, 1] - A[i, 0])                           # equal persistence
+        else:
+            B[j, 0] = A[i, 0]                                                 # equal birth
+    B[:, 1] = np.maximum(B[:, 1], B[:, 0])                                    # stay inside the domain: death >= birth
+    return B
